@@ -108,6 +108,8 @@ _unused = {
 TRACE_INV = {
     "C02": ["T_C02"], "C04": ["T_C04"], "C05": ["T_C05"], "C06": ["T_C06"], "C07": ["T_C07"], "C08": ["T_C08"], "C13": ["T_C13"], "C10": ["T_C10"],
 }
+# free-running passes (no gates, the behaviour's environment actions back to back): judged by the same predicates
+FREE_INV = {"C02": ["T_C02"], "C04": ["T_C04"], "C05": ["T_C05"], "C06": ["T_C06"], "C07": ["T_C07"], "C08": ["T_C08"], "C13": ["T_C13"]}
 STRICT = {
 
     "C07": {"T_C07_DoneAfterStop_strict": "KF-STOPRACE"},
@@ -140,11 +142,12 @@ def normalise(res, inst):
     actors, toks = INST[inst][1], INST[inst][2]
     r = dict(res)
     r["done"] = {t: res["done"].get(t, {"at": -1, "reg": False, "imm": False}) for t in toks}
-    r["sentBefore"] = {t: res["sentBefore"].get(t, []) for t in toks}
     dead = {}
     for ev in res["events"]:
         if ev["e"] == "DeadLetter":
             dead.setdefault(ev["a"], set()).add(ev["n"])
+    # sent before the stop request *and accepted* (a send that found nobody registered became a dead letter)
+    r["sentBefore"] = {t: [k for k in res["sentBefore"].get(t, []) if k not in dead.get(toks[t]["target"] if isinstance(toks[t], dict) else toks[t][0], set())] for t in toks}
     r["accepted"] = {a: [k for k in res["sent"].get(a, []) if k not in dead.get(a, set())] for a in actors}
     r["reg"] = {a: res["reg"].get(a, False) for a in actors}
     for k in ("sent", "pending", "divergence", "diverged_at"):
@@ -181,7 +184,7 @@ def conforms(res, exp, actors=None):
     return None
 
 
-def run_scenarios(sc, binp, scen_path, out_path):
+def run_scenarios(sc, binp, scen_path, out_path, extra=()):
     """runs the scenario file, surviving a death of the harness process; returns (results, crashed ids)"""
     crashed = []
     start = 0
@@ -190,7 +193,7 @@ def run_scenarios(sc, binp, scen_path, out_path):
         prog = sc.path("progress.txt")
         open(prog, "w").write("")
         part = out_path + ".part"
-        p = vlib.run([binp, "-in", scen_path, "-out", part, "-progress", prog, "-from", str(start)], timeout=3000, ok_codes=None)
+        p = vlib.run([binp, "-in", scen_path, "-out", part, "-progress", prog, "-from", str(start)] + list(extra), timeout=3000, ok_codes=None)
         for line in open(part):
             line = line.strip()
             if line:
@@ -350,12 +353,53 @@ def do_instance(binp, prop, tier, inst):
             r2 = trace_check(sc, inst, records, list(STRICT[prop]), "%s_%s_strict" % (prop, inst), cont=True)
             for name in violated_names(r2):
                 out["kf"].add(STRICT[prop][name])
+        if prop in FREE_INV and not out["violations"]:
+            free_passes(sc, binp, prop, tier, inst, pyinst, scen, spath, out)
         return out
     except vlib.Broken as e:
         out["broken"] = str(e)
         return out
     finally:
         sc.cleanup()
+
+
+def free_passes(sc, binp, prop, tier, inst, pyinst, scen, spath, out):
+    """the same behaviours once more without gates: environment actions back to back, failures where the behaviour
+    has them; the recorded histories are judged by the property's predicates (they need not be the behaviour's)"""
+    byid = {s["id"]: s for s, _, _ in scen}
+    npass = 1 if tier == "quick" else 4
+    every = 3 if tier == "quick" else 1
+    nfree = 0
+    for k in range(1, npass + 1):
+        pno = k + 10 * (vlib.seed() % 1000)
+        fres, fcr = run_scenarios(sc, binp, spath, sc.path("free_%s_%d.ndjson" % (inst, k)), extra=["-free", str(pno), "-every", str(every)])
+        nfree += len(fres)
+        if fcr and prop in ("C05", "C06"):
+            for sid, err in fcr[:2]:
+                rf = {"kind": "process-death", "free": pno, "instance": inst, "config": json.loads(pyinst.config_line()), "scenario": byid[sid], "stderr": err[-600:]}
+                if confirm_death(sc, binp, rf):
+                    out["violations"].append((rf, "the hosting process died in a free-running pass of scenario %d of %s: %s" % (
+                        sid, inst, err.strip().splitlines()[0][:200] if err.strip() else "")))
+        recs = [normalise(r, inst) for r in fres]
+        if not recs:
+            continue
+        r = trace_check(sc, inst, recs, FREE_INV[prop], "%s_%s_free%d" % (prop, inst, k))
+        if r.violated:
+            l = first_bad_record(r)
+            s = byid.get(fres[l - 1]["id"]) if l else None
+            rf = {"kind": "history", "free": pno, "instance": inst, "config": json.loads(pyinst.config_line()), "scenario": s,
+                  "invariant": r.violated, "recorded": recs[l - 1] if l else None}
+            if s is not None and confirm_history(sc, binp, prop, inst, rf):
+                out["violations"].append((rf, "%s fails on a history recorded in a free-running pass of scenario %s of instance %s" % (r.violated, s["id"], inst)))
+            else:
+                out["unreproduced"] = out.get("unreproduced", 0) + 1
+        if prop in STRICT:
+            r2 = trace_check(sc, inst, recs, list(STRICT[prop]), "%s_%s_free%d_strict" % (prop, inst, k), cont=True)
+            for name in violated_names(r2):
+                out["kf"].add(STRICT[prop][name])
+        if out["violations"]:
+            break
+    out["cov"]["free_running_histories"] = nfree
 
 
 class _Collector:
@@ -378,6 +422,7 @@ def do_check(sc, binp, prop, tier, v=None):
         "deliveries are gated inside Receive; environment actions are issued only when every actor is parked at a gate, idle or blocked (scenario refinement of Actor.tla)",
         "bounded instances: <= 3 actors, <= 3 user messages, <= 2 stop requests, <= 2 injected panics (plain or *InternalError); middleware chains 0..3 built from a shared base slice, inbox sizes 1,2,3,1024, root spawned with a live or an already cancelled context",
         "panics are injected in Initialized / Started / user deliveries and (instance one_s) in Stopped handlers",
+        "free-running passes: the same behaviours without gates (environment actions back to back from one driver goroutine, failures at the deliveries the behaviour names, pseudo-random pauses); their histories are judged by the property predicates only, a violation counts once it shows again in a re-run",
     ]
     kf_seen = {}
     insts = PLAN[tier][prop]
@@ -397,6 +442,8 @@ def do_check(sc, binp, prop, tier, v=None):
             cov["nonconformant_runs"] += c["nonconformant"]
             cov["racy_diverged"] += c["racy_diverged"]
             cov["crashed_scenarios"] += c["process_deaths"]
+            cov["free_running_histories"] = cov.get("free_running_histories", 0) + c.get("free_running_histories", 0)
+            cov["free_running_unreproduced"] = cov.get("free_running_unreproduced", 0) + out.get("unreproduced", 0)
             cov["instances"].append(c)
         if out["nonconf"]:
             cov.setdefault("nonconformance", [])
@@ -441,15 +488,24 @@ def write_single(sc, rf):
     return p
 
 
+def free_args(rf):
+    return ["-free", str(rf["free"])] if rf.get("free") else []
+
+
 def confirm_death(sc, binp, rf):
-    p = vlib.run([binp, "-in", write_single(sc, rf), "-out", sc.path("single.out")], ok_codes=None, timeout=120)
-    return p.returncode != 0
+    for _ in range(10 if rf.get("free") else 1):
+        p = vlib.run([binp, "-in", write_single(sc, rf), "-out", sc.path("single.out")] + free_args(rf), ok_codes=None, timeout=120)
+        if p.returncode != 0:
+            return True
+    return False
 
 
 def confirm_history(sc, binp, prop, inst, rf, tries=6):
     """the scenario is run again; a violation that depends on timing inside the engine counts once it shows again"""
+    if rf.get("free"):
+        tries = 40
     for _ in range(tries):
-        p = vlib.run([binp, "-in", write_single(sc, rf), "-out", sc.path("single.out")], ok_codes=None, timeout=120)
+        p = vlib.run([binp, "-in", write_single(sc, rf), "-out", sc.path("single.out")] + free_args(rf), ok_codes=None, timeout=120)
         if p.returncode != 0:
             return False
         recs = [normalise(json.loads(l), inst) for l in open(sc.path("single.out")) if l.strip()]
